@@ -134,8 +134,10 @@ def itemTok : Item Bytes → String
   | .none => "n"
   | .pending => "p"
 
+/-- the trailing `a0` token: the model never reserves memory for a refused frame, so the largest
+allocation stays within the harness's budget (`a1` = it did not) -/
 def runDec (c : DecCase) : String :=
-  String.intercalate " " ((Dec.run (tableCodec c.tab c.prost) c.cfg c.npolls Dec.init c.evs).map itemTok)
+  String.intercalate " " ((Dec.run (tableCodec c.tab c.prost) c.cfg c.npolls Dec.init c.evs).map itemTok ++ ["a0"])
 
 def model (case : List String) : Option String :=
   match case with
